@@ -236,7 +236,7 @@ def compare_session(line, h_ans, m_ans, debug_build=False, ignore_ops=()):
             live3 = False
         if live1 and unspecified(m1):
             live1 = False
-        if live1 and m1 == '-':      # fidelity-only observation
+        if live1 and m1 in ('-', '- -') and h == m1:      # no counters on this machine
             pass
         elif live1 and opk == 'rs' and m1 == 'E:eof' and h == 'ok':
             # skipping past the end of a strict stream needs no bit value: the buffered reader
